@@ -230,6 +230,26 @@ Proof.
     eapply keyed_go_wf; eassumption.
 Qed.
 
+(* listItemToPathElement with its error ignored: the zero element is an index *)
+Lemma pe_zero_wf : wf_pe pe_zero = true.
+Proof. reflexivity. Qed.
+
+Lemma list_item_pe_or_zero_some : forall s t child e, list_item_to_pe s t child = Some e ->
+  list_item_pe_or_zero s t child = e.
+Proof. intros s t child e H. unfold list_item_pe_or_zero. rewrite H. reflexivity. Qed.
+
+Lemma list_item_pe_or_zero_none : forall s t child, list_item_to_pe s t child = None ->
+  list_item_pe_or_zero s t child = pe_zero.
+Proof. intros s t child H. unfold list_item_pe_or_zero. rewrite H. reflexivity. Qed.
+
+Lemma list_item_pe_or_zero_wf_el : forall s R t child, schema_ok s R -> R (list_elem t) ->
+  wf_value child = true -> wf_pe (list_item_pe_or_zero s t child) = true.
+Proof.
+  intros s R t child Hs Hel Hc. unfold list_item_pe_or_zero.
+  destruct (list_item_to_pe s t child) as [e|] eqn:He; [|exact pe_zero_wf].
+  eapply list_item_to_pe_wf_el; eassumption.
+Qed.
+
 (* the list type handed to the walker is the list member of the atom resolved from tr *)
 Lemma list_item_to_pe_wf : forall s R tr a t child e, schema_ok s R -> R tr ->
   resolve s tr = Some a -> atom_list a = Some t -> wf_value child = true ->
